@@ -149,7 +149,7 @@ func runDisconnect(c dCase) (sent, out []byte, l1, l2 string, problems []string)
 			q.Opaque = 0
 			enc = q.EncodeText()
 		}
-		if _, closed, err := other.Exchange(enc, 5*time.Second); err != nil || closed {
+		if _, closed, err := other.Exchange(enc, 15*time.Second); err != nil || closed {
 			problems = append(problems, "a second connection, accepted before this one sent its first byte, could not be served after this one disconnected")
 		}
 		other.Close()
@@ -189,7 +189,7 @@ func runDisconnect(c dCase) (sent, out []byte, l1, l2 string, problems []string)
 		if c.Proto == "text" {
 			enc = q.EncodeText()
 		}
-		if _, closed, err := fc.Exchange(enc, 5*time.Second); err != nil || closed {
+		if _, closed, err := fc.Exchange(enc, 15*time.Second); err != nil || closed {
 			problems = append(problems, "a fresh connection could not operate on key "+k+" afterwards (lock still held?)")
 			break
 		}
